@@ -59,7 +59,10 @@ func ArrProps(propContainer map[string]object.PanObject) map[string]object.PanOb
 				}
 
 				// NOTE: no need to copy each elem because they are immutable
-				elems := append(self.Elems, other.Elems...)
+				// NOTE: copy self.Elems so that spare capacity of its backing array is never written
+				elems := make([]object.PanObject, 0, len(self.Elems)+len(other.Elems))
+				elems = append(elems, self.Elems...)
+				elems = append(elems, other.Elems...)
 				return object.NewPanArr(elems...)
 			},
 		),
